@@ -192,6 +192,55 @@ func runC18(r *vk.Run) {
 	})
 	r.Require("maporder_runs_compared", 500)
 
+	// order-sensitive float arithmetic and NaN ties: running-mean aggregations over whole-number counts
+	// (1,2,7 is enough for avg to differ by an ulp between operand orders) and topk/bottomk over groups
+	// with more NaN samples than k, where no comparison can break the tie
+	floatQueries := []string{
+		`avg(count_over_time({job="j"} | drop msg [10s]))`, `stddev(count_over_time({job="j"} | drop msg [10s]))`, `stdvar(count_over_time({job="j"} | drop msg [10s]))`,
+		`avg by (grp) (count_over_time({job="j"} | drop msg [10s]))`, `stdvar(sum by (pod) (count_over_time({job="j"} | drop msg [10s])))`, `avg(bytes_over_time({job="j"} | drop msg [10s]))`,
+		`topk(1, count_over_time({job="j"} | drop msg [10s]) % 0)`, `bottomk(2, count_over_time({job="j"} | drop msg [10s]) % 0)`, `topk(2, count_over_time({job="j"} | drop msg [10s]) % 0) by (grp)`,
+		`topk(2, sum_over_time({job="j"} | logfmt | drop msg | unwrap v [10s]))`, `bottomk(1, max_over_time({job="j"} | logfmt | drop msg | unwrap v [10s]))`,
+		`avg(sum_over_time({job="j"} | logfmt | drop msg | unwrap w [10s]))`, `stddev(avg_over_time({job="j"} | logfmt | drop msg | unwrap w [10s]))`,
+	}
+	r.Phase("floatorder", r.N(4, 60), func(c *vk.Case) {
+		rng := c.Rng
+		var recs []Rec
+		npods := rng.Range(5, 9)
+		for p := 0; p < npods; p++ {
+			cnt := vk.Pick(rng, []int{1, 2, 7, 3, 5, 11, 13, 6})
+			nan := rng.Chance(2, 3)
+			for k := 0; k < cnt; k++ {
+				v := fmt.Sprint(rng.Intn(20))
+				if nan {
+					v = "NaN"
+				}
+				recs = append(recs, Rec{TS: c14T0 + int64(len(recs))*1e8 + int64(p), Line: fmt.Sprintf("v=%s w=%d", v, vk.Pick(rng, []int{1, 2, 7, 3, 10})),
+					Labels: map[string]string{"job": "j", "pod": fmt.Sprint(p), "grp": fmt.Sprint(p % 2)}})
+			}
+		}
+		sortRecs(recs)
+		for _, q := range floatQueries {
+			first := ""
+			for rep := 0; rep < c.R.N(60, 300); rep++ {
+				res, err := evalQuery(&MemQuerier{Recs: recs, ErrAfter: -1}, q, EvalP{Start: c14T0, End: c14T0 + 10e9, Step: 5 * time.Second, Limit: -1})
+				c.Eval(1)
+				if err != nil {
+					c.Fail("", fmt.Sprintf("query %s failed: %v", q, err), map[string]any{"query": q})
+					return
+				}
+				canon := res.Canonical()
+				if first == "" {
+					first = canon + "\x00"
+				} else if first != canon+"\x00" {
+					c.Fail("", fmt.Sprintf("query %s over the same records gave different results in two evaluations (repetition %d)", q, rep), map[string]any{"query": q, "records": recs, "this_run": canon, "first_run": first})
+					return
+				}
+				c.Count("floatorder_runs_compared", 1)
+			}
+		}
+	})
+	r.Require("floatorder_runs_compared", 2000)
+
 	// tied timestamps across containers: the outcome of limit / first / last must not depend on which
 	// request completed first
 	tieQueries := []struct {
